@@ -1083,6 +1083,10 @@ func (c *FnCtx) execSimple(p *Path, ins ssa.Instruction) {
 		fr.regs[x] = Val{K: KPtr, T: base.T, Idx: iv.T, Typ: x.Type(), Key: elemKey(et)}
 	case *ssa.Index:
 		// string index or array value index
+		if b, ok := x.X.Type().Underlying().(*types.Basic); ok && b.Info()&types.IsString != 0 {
+			fr.regs[x] = c.stringByte(p, c.val(p, x.X), c.val(p, x.Index), x.Type())
+			break
+		}
 		c.note("Index instruction abstracted in " + fr.fn.Name())
 		fr.regs[x] = c.symbolic(p, x.Name(), x.Type())
 	case *ssa.UnOp:
@@ -1654,14 +1658,22 @@ func (c *FnCtx) mapUpdate(p *Path, x *ssa.MapUpdate) {
 	}
 }
 
+// stringByte: s[i], the i-th byte. Strings are SMT strings with one character per byte (the same convention as
+// len(s) = str.len): the byte is the character's code, taken to be below 256.
+func (c *FnCtx) stringByte(p *Path, s, i Val, t types.Type) Val {
+	c.checkIndex(p, i.T, "(str.len "+s.T+")", "string index")
+	r := Val{K: KInt, T: fmt.Sprintf("(str.to_code (str.at %s %s))", s.T, i.T), Typ: t}
+	p.assume(fmt.Sprintf("(and (<= 0 %s) (<= %s 255))", r.T, r.T))
+	return r
+}
+
 func (c *FnCtx) lookup(p *Path, x *ssa.Lookup) {
 	fr := p.top()
 	m := c.val(p, x.X)
 	k := c.val(p, x.Index)
 	mt, isMap := x.X.Type().Underlying().(*types.Map)
 	if !isMap { // string index
-		c.note("string indexing abstracted in " + fr.fn.Name())
-		fr.regs[x] = c.symbolic(p, x.Name(), x.Type())
+		fr.regs[x] = c.stringByte(p, m, k, x.Type())
 		return
 	}
 	base := typeKey(mt)
